@@ -71,6 +71,47 @@ theorem atomicity (fuel gas : Nat) (p : List (Prog N)) (v : View N) (hc : Clean 
   unfold specTx
   by_cases hok : (spec fuel false gas p v).1 = .ok <;> simp [hok]
 
+/-- the same for a DIRECT call (the transaction's `to` is the precompile): what is committed is what the declarative
+semantics says; a call that does not end normally — too little gas for `RequiredGas`, a failing keeper part after
+half-writing, a failing ERC-20 call inside, a panic — commits exactly the initial state, the transaction's value included -/
+theorem direct_call_atomic (fuel gas : Nat) (xfer : Option (N → N)) (req : Nat) (sh : RunShape) (out : N → N)
+    (inner : List (Nat × List (Prog N))) (act : ActionX N) (v : View N) (hsh : sh.clean = true)
+    (hinner : ∀ x ∈ inner, Clean x.2) :
+    runTxPre fuel gas xfer req sh out inner act v = specTxPre fuel gas xfer req sh out inner act v ∧
+    ((runTxPre fuel gas xfer req sh out inner act v).1 ≠ .ok → (runTxPre fuel gas xfer req sh out inner act v).2.1 = v) := by
+  have hev : EvGood (exec fuel) (spec fuel) inner := fun x hx ro' s' => exec_good fuel ro' x.1 x.2 s' (hinner x hx)
+  have key : ∀ (s1 : St N), Ext ({ toView := v, journal := [] } : St N) s1 →
+      (let r := runPre (exec fuel) false false gas req sh out inner act s1
+       (if r.1 = .ok then (Outcome.ok, commit r.2.1, r.2.2)
+        else if r.1 = .abort then (.abort, v, 0)
+        else (r.1, commit (r.2.1.revertTo 0), if r.1 = .revert then r.2.2 else 0))) =
+      (let r := specPre (spec fuel) false false gas req sh out inner act s1.toView
+       (if r.1 = .ok then (Outcome.ok, r.2.1, r.2.2) else (r.1, v, if r.1 = .revert then r.2.2 else 0))) := by
+    intro s1 h1
+    have hg := runPre_good (exec fuel) (spec fuel) false false gas req sh out inner act s1 hsh hev
+    obtain ⟨ho, hgas, hext, hv⟩ := hg
+    simp only [commit]
+    by_cases hok : (runPre (exec fuel) false false gas req sh out inner act s1).1 = .ok
+    · have hok' := ho ▸ hok
+      simp only [hok, hok', ↓reduceIte, hv hok, hgas]
+    · have hok' : ¬ (specPre (spec fuel) false false gas req sh out inner act s1.toView).1 = .ok := fun h => hok (ho ▸ h)
+      by_cases hab : (runPre (exec fuel) false false gas req sh out inner act s1).1 = .abort
+      · have hab' := ho ▸ hab
+        simp [hab, hab']
+      · have hr := revertTo_of_ext (h1.trans (hext hab))
+        simp only [List.length_nil] at hr
+        simp only [hok, hab, ↓reduceIte, hr, ← ho, hgas]
+  have heq : runTxPre fuel gas xfer req sh out inner act v = specTxPre fuel gas xfer req sh out inner act v := by
+    unfold runTxPre specTxPre
+    cases xfer with
+    | none => exact key _ (Ext.refl _)
+    | some f =>
+      exact key (({ toView := v, journal := [] } : St N).transfer f) (ext_transfer _ f)
+  refine ⟨heq, ?_⟩
+  rw [heq]
+  unfold specTxPre
+  exact tx_wrap_fail _ v
+
 /-- in particular the native (Cosmos) store after a transaction that failed for whatever reason is the initial one -/
 theorem failed_tx_native_unchanged (fuel gas : Nat) (p : List (Prog N)) (v : View N) (hc : Clean p)
     (h : (runTx fuel gas p v).1 ≠ .ok) : (runTx fuel gas p v).2.1.native = v.native := by
